@@ -288,6 +288,7 @@ func (d *Data) handleSyncMessage(ctx *datastore.VersionedCtx, msg datastore.Sync
 	case labelmap.IngestedBlock:
 		chunkPt, _ := delta.BCoord.ToChunkPoint3d()
 		data, _ := delta.Data.MakeLabelVolume()
+		d.mapSupervoxelsToLabels(msg.Version, delta.Data.Labels, data)
 		d.ingestBlock(ctx, chunkPt, data, batcher)
 		mutID = delta.MutID
 
@@ -302,6 +303,8 @@ func (d *Data) handleSyncMessage(ctx *datastore.VersionedCtx, msg datastore.Sync
 		chunkPt, _ := delta.BCoord.ToChunkPoint3d()
 		prev, _ := delta.Prev.MakeLabelVolume()
 		data, _ := delta.Data.MakeLabelVolume()
+		d.mapSupervoxelsToLabels(msg.Version, delta.Prev.Labels, prev)
+		d.mapSupervoxelsToLabels(msg.Version, delta.Data.Labels, data)
 		d.mutateBlock(ctx, delta.MutID, chunkPt, prev, data, batcher)
 		mutID = delta.MutID
 
@@ -361,6 +364,36 @@ func (d *Data) handleSyncMessage(ctx *datastore.VersionedCtx, msg datastore.Sync
 			activity["mutation_id"] = mutID
 		}
 		storage.LogActivityToKafka(activity)
+	}
+}
+
+// A labelmap block holds supervoxel ids while elements are indexed by the (agglomerated) label
+// of their voxel, so a block volume is translated through the labelmap's mapping in place.
+func (d *Data) mapSupervoxelsToLabels(v dvid.VersionID, supervoxels []uint64, vol []byte) {
+	mapper, ok := d.getSyncedLabels().(interface {
+		GetMappedLabels(dvid.VersionID, []uint64) ([]uint64, []bool, error)
+	})
+	if !ok || len(supervoxels) == 0 {
+		return
+	}
+	mapped, found, err := mapper.GetMappedLabels(v, supervoxels)
+	if err != nil {
+		dvid.Errorf("unable to map supervoxels of synced block for annotation %q: %v\n", d.DataName(), err)
+		return
+	}
+	remap := make(map[uint64]uint64)
+	for i, supervoxel := range supervoxels {
+		if found[i] && mapped[i] != supervoxel {
+			remap[supervoxel] = mapped[i]
+		}
+	}
+	if len(remap) == 0 {
+		return
+	}
+	for i := 0; i+8 <= len(vol); i += 8 {
+		if label, changed := remap[binary.LittleEndian.Uint64(vol[i:i+8])]; changed {
+			binary.LittleEndian.PutUint64(vol[i:i+8], label)
+		}
 	}
 }
 
